@@ -56,7 +56,7 @@ func main() {
 				if i >= 15 {
 					break
 				}
-				fmt.Printf("%s [%s #%d] %s\n    go:   %s\n    lean: %s\n", title, r.stream, r.idx, describe(r.line), truncate(r.goAns, 300), truncate(r.leanAns, 300))
+				fmt.Printf("%s [%s #%d] %s\n    go:   %s\n    lean: %s\n", title, r.stream, r.idx, truncate(describe(r.line), 400), tail(r.goAns, 300), tail(r.leanAns, 300))
 			}
 		}
 		show("MISMATCH", st.bad)
@@ -75,4 +75,11 @@ func driverPath() string {
 		return v
 	}
 	return "/verif/lean/.lake/build/bin/driver"
+}
+
+func tail(s string, n int) string {
+	if len(s) > n {
+		return s[:n/2] + "…" + s[len(s)-n/2:]
+	}
+	return s
 }
